@@ -22,9 +22,11 @@ ASSUMPTIONS = [
     "formula = sum of all streams, so the output value reveals exactly which (stream, sample) pairs were combined",
     "delivery (symbolic choice): everything preloaded before the consumer starts; consumer started first then everything sent; lock-step rounds; "
     "one stream delivered only after all the others are exhausted",
-    "other interleavings that respect per-stream FIFO order cannot change what blocking FIFO reads return (Kahn-network argument): stated, not checked",
+    "interleave instances: the delivery order is a symbolic choice per step (which stream delivers next, whether the engine runs before the next delivery) and the consumer "
+    "subscribes after a symbolic number of deliveries, so every FIFO-preserving schedule within the bound is explored, not sampled",
+    "beyond that bound: other interleavings that respect per-stream FIFO order cannot change what blocking FIFO reads return (Kahn-network argument): stated, not checked",
 ]
-BOUNDS = {"quick": "2 and 3 streams, K = 4 samples per stream, 4 delivery modes; 3-phase engine with per-phase offsets", "thorough": "4 streams, K = 5, offsets in [0, 3]"}
+BOUNDS = {"quick": "2 and 3 streams, K = 4 samples per stream, 4 delivery modes; 3-phase engine with per-phase offsets; 2 streams x 3 samples under every delivery interleaving / yield pattern / subscription point", "thorough": "4 streams, K = 5, offsets in [0, 3]; interleavings of 3 streams x 2 samples and 2 streams x 4 samples"}
 OUTSIDE = "receiver overflow (capacity 50 never reached); more streams"
 BUDGET = {"quick": 300, "thorough": 600}
 PER = timedelta(seconds=1)
@@ -107,6 +109,71 @@ def make(ns, K, omax=2, reach=False):
     return fn
 
 
+def make_interleave(ns, K, omax=1, reach=False):
+    """Arbitrary FIFO-preserving delivery interleaving: at every step the solver picks which stream delivers its next sample and whether
+    the engine gets to run before the next delivery; the consumer subscribes after a symbolic number of deliveries."""
+    def fn(ex):
+        offs = [ex.int_(f"o{i}", 0, omax) for i in range(ns)]
+        vals = [[ex.real(f"v{i}_{k}") for k in range(K)] for i in range(ns)]
+        total = ns * K
+        start_at = ex.choice("consumer_starts_after", total + 1)
+
+        async def scenario():
+            chans = [Broadcast[Sample[Power]](name=f"c{i}") for i in range(ns)]
+            b = FormulaBuilder("f", Power.from_watts)
+            for i in range(ns):
+                if i:
+                    b.push_oper("+")
+                b.push_metric(f"m{i}", chans[i].new_receiver(limit=100), nones_are_zeros=False)
+            eng = b.build()
+            snd = [c.new_sender() for c in chans]
+            nxt = [0] * ns
+            rx = None
+            for step in range(total):
+                if step == start_at:
+                    rx = eng.new_receiver(max_size=100)
+                live = [i for i in range(ns) if nxt[i] < K]
+                i = live[ex.choice(f"pick{step}", len(live))] if len(live) > 1 else live[0]
+                await snd[i].send(Sample(TS + (offs[i] + nxt[i]) * PER, Power.from_watts(vals[i][nxt[i]])))
+                nxt[i] += 1
+                if ex.choice(f"yield{step}", 2):
+                    await asyncio.sleep(0.25)
+            if rx is None:
+                rx = eng.new_receiver(max_size=100)
+            outs = []
+            while True:
+                try:
+                    outs.append(await asyncio.wait_for(rx.receive(), 5.0))
+                except asyncio.TimeoutError:
+                    break
+            await eng._stop()
+            return outs
+        try:
+            outs = fx.run_loop(scenario())
+        except fx.Livelock:
+            ex.check(False, "engine spins without emitting")
+            return
+        if reach:
+            if len(outs) >= 2:
+                ex.check(False, "reach")
+            return
+        o = [ex.realize_int(EI(x)) for x in offs]
+        mx, mn = max(o), min(o)
+        expected_n = K - (mx - mn)
+        ex.check(len(outs) == expected_n, f"{len(outs)} samples emitted, expected {expected_n} (offsets {o}, consumer subscribed after {start_at} deliveries)")
+        for m, out in enumerate(outs[:expected_n]):
+            ex.check(EI(out.timestamp) == EI(TS + (mx + m) * PER), f"timestamp of output {m} is not latest-first-timestamp + {m} steps")
+            if out.value is None:
+                ex.check(False, f"output {m} is None although every input of its timestamp is present")
+                continue
+            exp = 0.0
+            for i in range(ns):
+                exp = exp + vals[i][mx - o[i] + m]
+            prop = fx.close_enough(out.value.base_value, exp) if ex.concrete else E(out.value.base_value) == E(exp)
+            ex.check(prop, f"value of output {m} is not computed from the inputs stamped with its timestamp")
+    return fn
+
+
 def make_3phase(K, omax=2, reach=False):
     """FormulaEngine3Phase zipping three per-phase engines whose input streams begin at different timestamps."""
     from frequenz.sdk.timeseries.formula_engine._formula_engine import FormulaEngine, FormulaEngine3Phase
@@ -162,7 +229,12 @@ def instances(tier):
            I("2 streams K4", "make", (2, 4), "2 streams, 4 samples each, offsets 0..2", budget_s=200, validate_every=20),
            I("3 streams K4", "make", (3, 4), "3 streams, 4 samples each, offsets 0..2", budget_s=300, validate_every=50),
            I("3phase K4", "make_3phase", (4,), "FormulaEngine3Phase over three per-phase engines whose inputs begin at offsets 0..2", budget_s=200, validate_every=5)]
+    out.append(I("reach:interleave", "make_interleave", (2, 2, 1, True), "reachability twin of the interleaving instance", budget_s=60, validate_every=0))
+    out.append(I("interleave 2xK3", "make_interleave", (2, 3, 1), "2 streams x 3 samples, offsets 0..1: every FIFO-preserving delivery order (solver-chosen), engine allowed or not allowed to run "
+                 "after each delivery, consumer subscribing after 0..6 deliveries", budget_s=240, validate_every=200))
     if tier != "quick":
+        out.append(I("interleave 3xK2", "make_interleave", (3, 2, 1), "3 streams x 2 samples, offsets 0..1, every delivery order / yield pattern / subscription point", budget_s=600, validate_every=500))
+        out.append(I("interleave 2xK4", "make_interleave", (2, 4, 2), "2 streams x 4 samples, offsets 0..2, every delivery order / yield pattern / subscription point", budget_s=900, validate_every=1000))
         out.append(I("3 streams K5 o3", "make", (3, 5, 3), "3 streams, 5 samples, offsets 0..3", budget_s=600, validate_every=100))
         out.append(I("4 streams K5", "make", (4, 5, 2), "4 streams, 5 samples, offsets 0..2", budget_s=900, validate_every=200))
     return out
